@@ -70,6 +70,15 @@ CHECKS = {
         note="Trusted: z3; symx; cstruct generated readers interpreted; SHA-256 uninterpreted; decimal/hex rendering model; "
         "ipaddress model. Legacy y/m/d kill date and empty DOMAINS are outside the claim (see DESIGN).",
         ref="§4 C03"),
+    "C06": dict(
+        text="With every metadata field symbolic at full width and info lengths at and around the PKCS#1 limit (1024- and 2048-bit "
+        "moduli): encrypt then decrypt is field-for-field identical with size == len-8; over-long metadata raises ValueError; for any "
+        "blob not produced by encrypt — the RSA primitive returning its sentinel, ValueError, or an arbitrary byte string of length "
+        "0..117 with arbitrary content — only ValueError escapes (or a record consistent with the bytes); AES/HMAC keys are the halves "
+        "of SHA-256(aes_rand).",
+        note="Trusted: z3; symx; PKCS#1 v1.5 as a contract stub (checked against pycryptodome each run, real RSA in native replays); "
+        "SHA-256 uninterpreted; cstruct reader interpreted, dumps as field concatenation (validated against cstruct each run).",
+        ref="§4 C06"),
     "C15": dict(
         text="iter_find_needle: for every haystack (<=8/12 fully symbolic bytes), needle (1..3 / 1..4,7 symbolic bytes), read-buffer size "
         "1..5,8 / 1..9, start position and search limit, the reported offsets are proved to be exactly the true occurrences (ascending, "
